@@ -16,6 +16,48 @@ func verifAssert(label string, cond bool) {
 func verifCanary(label string, cond bool) {}
 
 // ---------------------------------------------------------------------------
+// C22: a session exists only after the server's signature verified
+// ---------------------------------------------------------------------------
+
+// what ua.Decode produces for a CreateSessionResponse: pointer fields are always allocated
+//@ pred decodedCSR(r *ua.CreateSessionResponse) := r != nil && r.ResponseHeader != nil && r.ServerSignature != nil
+
+//@ func (*Client).SecureChannel
+//@   props C22
+//@   assumed
+//@   assigns nothing
+//@   ensures result == nil || result.cfg != nil
+
+//@ func anonymousPolicyID
+//@   props C22
+//@   assumed
+//@   assigns nothing
+
+// The response handler of CreateSession. A closure: its free variables sc, nonce, c, cfg and s are
+// captured by reference, i.e. each name denotes a pointer to the variable (*sc is the channel).
+//@ func (*Client).CreateSession$1
+//@   props C22
+//@   requires [arg] typeis(v, *ua.CreateSessionResponse) ==> decodedCSR(dyn(v, *ua.CreateSessionResponse))
+//@   requires sc != nil && *sc != nil && (*sc).cfg != nil && c != nil && *c != nil && (*c).cfg != nil && (*c).cfg.session != nil
+//@   requires s != nil && nonce != nil && cfg != nil
+//@   let mode = (*sc).cfg.SecurityMode
+//@   assigns *
+//@   after "safeAssign(v, &res)" assigns *dyn(arg1, **ua.CreateSessionResponse)
+//@   after "safeAssign(v, &res)" ensures result == nil ==> typeis(v, *ua.CreateSessionResponse) &&
+//@         *dyn(arg1, **ua.CreateSessionResponse) == dyn(v, *ua.CreateSessionResponse)
+//@   after "safeAssign(v, &res)" ensures result != nil ==> !typeis(v, *ua.CreateSessionResponse)
+//@   ensures [C22:session] result == nil ==> *s != nil
+//@   ensures [C22:verified] result == nil && mode != ua.MessageSecurityModeNone ==> typeis(v, *ua.CreateSessionResponse) &&
+//@           uasc.sessionSigKeyOK(old(dyn(v, *ua.CreateSessionResponse).ServerCertificate), old(dyn(v, *ua.CreateSessionResponse).ServerSignature.Signature))
+//@   ensures [C22:typed] result == nil ==> typeis(v, *ua.CreateSessionResponse)
+
+//@ func (*Client).CreateSession
+//@   props C22
+//@   requires c != nil && c.cfg != nil && c.cfg.sechan != nil && c.cfg.session != nil && cfg != nil
+//@   assigns *
+//@   ensures [C22:session-or-error] err == nil ==> result0 != nil
+
+// ---------------------------------------------------------------------------
 // C24: endpoint selection
 // ---------------------------------------------------------------------------
 
